@@ -201,5 +201,11 @@ def stepLength (al : Array α) (dz ds z s : Array α) (step aMin aMax : α) (fue
   let as ← backtrackSearch ds s aMax aMin step (inPrimal al) fuel
   pure (az, as)
 
+/-- `combined_ds_shift`: `shift = grad·σμ` — the generalised power cone has no third-order
+correction (`higher_correction` is `unimplemented!()` and is never called); the step directions
+are ignored. -/
+def combinedDsShift (D : Data α) (_stepZ _stepS : Array α) (σμ : α) : Array α :=
+  D.grad.map (fun g => g * σμ)
+
 end GenPow
 end Clarabel
